@@ -157,6 +157,12 @@ class VMap(V):
     def __init__(s, has, val): s.has = has; s.val = val
 
 
+class VLine(V):
+    """Line number i of the text file being read (T8): its blank-separated tokens are LTOK(i)[0 .. LTOKLEN(i)); a colon ends a
+    field and is not part of a token (T7: replace(':', '') then split())."""
+    def __init__(s, t): s.t = t
+
+
 class VExt(V):
     """Opaque external object (parser, solver handle, file ...)."""
     def __init__(s, tag, data=None): s.tag = tag; s.data = data
